@@ -502,7 +502,7 @@ REGISTRY = {
         "assumptions": ["as C03; batch ids are the snowflake ids observed from the implementation (an input of the model); distinctness of the ids of a crashed (unsealed) batch and of later batches is assumed"],
     },
     "C05": {
-        "corr": lambda tier, seed: corr_engine("C05", tier, seed, "batches,restarts,bigvals", 120, 3000, ops=30,
+        "corr": lambda tier, seed: corr_engine("C05", tier, seed, "batches,restarts,bigvals,hostilesome", 120, 3000, ops=30,
                                                dflags=NOEV, oracle_props=["C05"]),
         "assumptions": ["theorems are about the record-level engine model; the hash index of the staging area is abstracted to a key lookup (any hash function gives the same result)",
                         "a double Commit is a rejected call in the model; the absence of a double unlock is observed by the correspondence run only"],
@@ -526,6 +526,8 @@ def run_property(pid, spec, tier, seed, build_fail, build_log):
         res["build_fail"] = {"stage": build_fail.stage, "log": build_fail.log[-4000:]}
     res["grep"] = core.grep_gate()
     res["proof"] = core.proof_gate(pid)
+    if tier == "thorough" and res["proof"].get("ok"):
+        res["coqchk"] = core.coqchk_gate(pid)
     if build_fail is None or build_fail.stage not in ("go-build", "ocaml-build", "extract"):
         try:
             res["corr"] = spec["corr"](tier, seed)
@@ -552,6 +554,8 @@ def conclude(pid, spec, tier, seed, res):
         problems.append("grep gate: %s" % res["grep"][:5])
     if not proof.get("ok"):
         problems.append("proof gate: props/%s.v does not check" % pid)
+    if res.get("coqchk") is not None and not res["coqchk"].get("ok"):
+        problems.append("coqchk does not accept props/%s.vo: %s" % (pid, res["coqchk"].get("summary", "")[-600:]))
     if res.get("corr_error"):
         problems.append("correspondence could not run: %s" % res["corr_error"]["stage"])
     if corr.get("errors"):
@@ -610,11 +614,12 @@ def conclude(pid, spec, tier, seed, res):
     cov = {
         "obligations": proof.get("obligations", 0),
         "discharged": proof.get("obligations", 0) if proof.get("ok") else 0,
-        "checker_cmd": "coq_makefile -f coq/_CoqProject && make (full .vo build, Coq 8.16.1); coqc props/%s.v; Print Assumptions under every theorem" % pid,
+        "checker_cmd": "coq_makefile -f coq/_CoqProject && make (full .vo build, Coq 8.16.1); coqc props/%s.v; Print Assumptions under every theorem%s" % (pid, "; coqchk -silent -o KV.%s" % pid if tier == "thorough" else ""),
         "trusted_base": core.TRUSTED_BASE,
         "theorems": proof.get("theorems", []),
         "print_assumptions": proof.get("assumptions", []) or ["Closed under the global context"],
         "proof_files": proof.get("files", []),
+        "coqchk": (res.get("coqchk") or {}).get("fields", "not run (thorough tier only)"),
         "evaluations": corr.get("evaluations", 0),
         "distinct_nontrivial": corr.get("distinct_nontrivial", 0),
         "rule": corr.get("rule", ""),
